@@ -22,6 +22,9 @@ pub enum Role {
     CreatedInBlock,
     SelfDestructing,
     NearOverflow,
+    /// a plain account that receives an EIP-7702 delegation inside the block and is then called
+    /// and inspected (its code is versioned apart from its balance history)
+    DelegatedInBlock,
 }
 
 #[derive(Clone, Copy, Debug, PartialEq, Eq)]
@@ -41,7 +44,7 @@ fn created_addr() -> Address {
 pub fn beneficiary_of(role: Role) -> Address {
     match role {
         Role::Absent => fresh(7),
-        Role::PlainEoa | Role::NearOverflow => eoa(7),
+        Role::PlainEoa | Role::NearOverflow | Role::DelegatedInBlock => eoa(7),
         Role::Sender => eoa(0),
         Role::Recipient => eoa(1),
         Role::ContractWithStorage | Role::SelfDestructing => contract(4),
@@ -55,7 +58,7 @@ pub fn world(role: Role) -> MemDb {
         db.fund(eoa(i), U256::from(10 * ETHER), 0);
     }
     match role {
-        Role::PlainEoa => db.fund(eoa(7), U256::from(5u64), 0),
+        Role::PlainEoa | Role::DelegatedInBlock => db.fund(eoa(7), U256::from(5u64), 0),
         Role::NearOverflow => db.fund(eoa(7), U256::MAX - U256::from(100_000u64), 0),
         _ => {}
     }
@@ -68,6 +71,7 @@ pub fn world(role: Role) -> MemDb {
     db.deploy(contract(8), kit::probe_slot());
     db.deploy(contract(0), kit::incr());
     db.deploy(contract(9), kit::coinbase_hash_reader());
+    db.deploy(contract(10), kit::probe());
     db
 }
 
@@ -106,6 +110,15 @@ pub fn templates(role: Role, f: Fee) -> Vec<Template> {
             v.push(tpl("create-coinbase(e0)", eoa(0), &["coinbase"], move |n| fee(tx(eoa(0), n, Some(contract(F1)), 3, calldata(&[word(1)])), f)));
             v.push(tpl("coinbase.set(1,42)(e1)", eoa(1), &["coinbase"], move |n| fee(call(eoa(1), n, cb, &[word(1), word(42)]), f)));
         }
+        Role::DelegatedInBlock => {
+            v.push(
+                tpl_auth("delegate(coinbase>incr)+call(coinbase,1)(e0)", eoa(0), &["coinbase"], vec![cb], move |n, nonce_of| {
+                    fee(with_auths(call(eoa(0), n, cb, &[word(1)]), vec![authorization(cb, nonce_of(cb), contract(0))]), f)
+                }),
+            );
+            v.push(tpl("call(coinbase,1)(e1)", eoa(1), &["coinbase"], move |n| fee(call(eoa(1), n, cb, &[word(1)]), f)));
+            v.push(tpl("probe(coinbase)(e3)", eoa(3), &["coinbase"], move |n| fee(call(eoa(3), n, contract(10), &[word_addr(cb)]), f)));
+        }
         Role::Absent | Role::PlainEoa | Role::NearOverflow => {
             v.push(tpl("send-to-coinbase(e0)", eoa(0), &["coinbase"], move |n| fee(transfer(eoa(0), n, cb, 9), f)))
         }
@@ -113,8 +126,15 @@ pub fn templates(role: Role, f: Fee) -> Vec<Template> {
     v
 }
 
-pub fn expressible(_role: Role, f: Fee, spec: SpecId) -> bool {
+pub fn expressible(role: Role, f: Fee, spec: SpecId) -> bool {
     let london = spec.is_enabled_in(SpecId::LONDON);
+    if role == Role::DelegatedInBlock {
+        // authorisation lists exist from Prague on; two fee settings are enough for this role
+        return spec == SpecId::PRAGUE && matches!(f, Fee::Legacy10 | Fee::Tip3);
+    }
+    if spec == SpecId::PRAGUE && role != Role::DelegatedInBlock && false {
+        return false;
+    }
     match f {
         Fee::Legacy10 => true,
         Fee::LegacyZero => !london,
@@ -122,7 +142,7 @@ pub fn expressible(_role: Role, f: Fee, spec: SpecId) -> bool {
     }
 }
 
-pub const ROLES: [Role; 8] = [
+pub const ROLES: [Role; 9] = [
     Role::Absent,
     Role::PlainEoa,
     Role::Sender,
@@ -131,18 +151,22 @@ pub const ROLES: [Role; 8] = [
     Role::CreatedInBlock,
     Role::SelfDestructing,
     Role::NearOverflow,
+    Role::DelegatedInBlock,
 ];
 
 pub fn jobs(tier: Tier) -> Vec<Job> {
     let mut v = Vec::new();
     let specs: &[SpecId] = match tier {
-        Tier::Quick => &[SpecId::BERLIN, SpecId::CANCUN],
+        Tier::Quick => &[SpecId::BERLIN, SpecId::CANCUN, SpecId::PRAGUE],
         Tier::Thorough => &[SpecId::BERLIN, SpecId::LONDON, SpecId::CANCUN, SpecId::PRAGUE],
     };
     for role in ROLES {
         for f in [Fee::Legacy10, Fee::LegacyZero, Fee::Tip0, Fee::Tip3] {
             for &spec in specs {
                 if !expressible(role, f, spec) {
+                    continue;
+                }
+                if tier == Tier::Quick && spec == SpecId::PRAGUE && role != Role::DelegatedInBlock {
                     continue;
                 }
                 let db = world(role);
